@@ -294,7 +294,8 @@ def _bit_ranges(R, cls, rid):
           "`celldefine/`endcelldefine — per method (one net balance on all normal paths, correlated conditions pruned) and zero for a whole "
           "module; B2' every token constant the writer emits is one the reader's modules reference (layout tokens excepted); B4' VERILOG.* "
           "metadata keys stored by the reader minus keys read by the writer equals the reviewed table; B5' separators in item lists are "
-          "updated on every iteration; hand-maintained position counters advance once per element.")
+          "updated on every iteration; hand-maintained position counters advance once per element; B6' the bounds of every bit range written next to a cable "
+          "name come from the one wire-to-bit-index function (position + lower_index) applied to wires of that same cable expression.")
 def check_c04(ctx, R):
     P = ctx.P
     R.rule("B1'", "delimiter balance of the Verilog writer")
@@ -388,7 +389,7 @@ def _str_consts(node):
           "category the reader assigns has a branch in the writer's compose_instances (otherwise instances vanish on write); B4'' EBLIF.* keys "
           "stored by the reader minus keys read by the writer equals the reviewed table; B1'' every .model written is followed by .end on all "
           "paths; B6 the .conn wire merge iterates over a snapshot of the pin lists it empties; hand-maintained position counters advance once "
-          "per element.")
+          "per element; B7 a bus grown on demand to hold bit I is then read at bit I.")
 def check_c18(ctx, R):
     P = ctx.P
     R.rule("B2''", "directive agreement")
